@@ -12,13 +12,14 @@ CFG = cfg('C12', refine=['Refine_s2k'], extract='Ex_C12', driver='c12',
                    'the pure-Python RFC 3.7.1 oracle in tools/harness/c12.py'],
           assumptions=['H is a function of the concatenated input (hashlib update(a); update(b) = one-shot over a+b)',
                        'text passphrases reach derive_key as str and are UTF-8 encoded (str.encode) before hashing; the harness encodes independently',
-                       'the arithmetic of derive_key is tied by its pinned source text + correspondence, not by the translator',
+                       'count/hcount/hleft of derive_key are tied by the translator (gen_s2k_arith, Refine_s2k.v); ctx, the hashing loop and the '
+                       'truncation by the pinned source text of derive_key + the correspondence run',
                        'int(math.ceil(keylen / hashlen)) is exact for the sizes that occur (float division of small integers)'])
 
 TEXT = ('Rocq theorems (Props/C12.v, closed under the global context, H and hlen universally quantified): derive_eq_rfc for every specifier, hash, '
         'key size, salt, coded count and passphrase (empty included); the hashed stream is the cyclic reading of salt+passphrase (stream_eq, '
         'cycle_take_nth); number of contexts is the least sufficient one; exact key length; simple S2K with empty passphrase = H("") truncated '
-        '(pre-repair code refuted); count decode for all 256 codes. Tie: translator for the count getter (Refine_s2k.v), pinned source text of '
-        'derive_key, extracted-model correspondence with hashlib as primitive oracle over all 256 counts, plus an independent RFC oracle.',
+        '(pre-repair code refuted); count decode for all 256 codes. Tie: translator for the count getter and the count/hcount/hleft arithmetic of derive_key (Refine_s2k.v), pinned '
+        'source text of derive_key, extracted-model correspondence with hashlib as primitive oracle over all 256 counts, plus an independent RFC oracle.',
         'DESIGN.md 5 C12',
         'machine-checked proof in Rocq (Coq 8.16.1) + extracted-model correspondence with primitive oracle + independent RFC implementation')
